@@ -37,6 +37,7 @@ TABLE = [
     ('set tracked', [], [['set_tracked', 0, 5]]),
     ('set tracked to the same value', [], [['set_tracked', 0, 0]]),
     ('tracked + 1', [], [['add_tracked', 0, 1]]),
+    ('tracked + 0 (value unchanged)', [], [['add_tracked', 0, 0]]),
     ('queue put without receiver', [], [['put', 0, 7]]),
     ('queue get of a buffered item', [['put', 0, 7]], [['get', 0]]),
     ('queue close (open)', [], [['close_q', 0]]),
@@ -116,6 +117,11 @@ def direct_ops():
     async def claim_enter_exit(st):
         async with st['res'].claim(a=1, b=1):
             st['mark']('inside')
+
+    async def await_scope_from_child(st):
+        # the subject IS a child of a scope whose body has ended (the scope is waiting for its children): awaiting the
+        # scope completes at once - and must still yield
+        await st['done_scope']
 
     async def borrow_nothing(st):
         async with st['res'].borrow(a=0):
@@ -221,7 +227,13 @@ def run_direct(ctx):
                 break
             st['mark']('start2')
 
+    async def await_done_scope(st):
+        st['mark']('start2')
+        await st['done_scope']
+        st['mark']('end2')
+
     special = {'channel iteration step to a second buffered message': None,
+               'await a scope whose body is done, from one of its children': await_done_scope,
                'interval step that is due right now (body took exactly one period)': interval_exact,
                'second step of delay(0)': delay_zero_second}
     for name, op in ops + [(nm, None) for nm in special]:
@@ -261,6 +273,10 @@ def run_direct(ctx):
                 for r in range(2, 6):
                     await usim.instant
                     st['mark'](('spin%d' % r, i))
+            async def host():
+                async with usim.Scope() as sc:
+                    st['done_scope'] = sc
+                    sc.do(subject())
             case = {'operation': name, 'spinners': k}
             acts = [setup(), subject()] + [spinner(i) for i in range(k)]
             if op is None and special[name] is None:
@@ -273,6 +289,12 @@ def run_direct(ctx):
                     await (usim.time + 1)
                     await fn(st)
                 acts = [setup()] + [spinner(i) for i in range(k)] + [stepper()]
+                if name.startswith('await a scope'):
+                    async def scope_host():
+                        async with usim.Scope() as sc:
+                            st['done_scope'] = sc
+                            sc.do(stepper())
+                    acts = [setup()] + [spinner(i) for i in range(k)] + [scope_host()]
             try:
                 usim.run(*acts)
             except BaseException as e:
